@@ -349,3 +349,35 @@ package anthropic
 //@   ensures res1 == nil ==> res0 != nil && res0.TargetPath == "/v1/chat/completions" && res0.OpenAIRequest != nil && res0.ModelName != ""
 //@   ensures res1 == nil ==> strOf(res0.OpenAIRequest["model"]) == res0.ModelName && typeis(res0.OpenAIRequest["stream"], "bool") && asBool(res0.OpenAIRequest["stream"]) == res0.IsStreaming
 //@   ensures res1 == nil ==> has(res0.OpenAIRequest, "messages") && has(res0.OpenAIRequest, "max_tokens") && typeis(res0.OpenAIRequest["max_tokens"], "int") && asInt(res0.OpenAIRequest["max_tokens"]) >= 1
+
+// a translator always has its logger and inspector (set once by NewTranslator)
+//@ type Translator
+//@   repinv self.logger != nil && self.inspector != nil
+
+// ---- C14: passthrough is offered only when enabled and at least one capable endpoint was handed in; a prepared
+// passthrough request is the client's own bytes, addressed to /v1/messages
+//@ func (t *Translator) CanPassthrough
+//@   property C14
+//@   safety
+//@   requires t != nil && t.logger != nil
+//@   refines translator.PassthroughCapable.CanPassthrough
+//@   ensures res <==> (t.config.PassthroughEnabled && len(endpoints) > 0)
+
+//@ func (t *Translator) PreparePassthrough
+//@   property C14
+//@   safety
+//@   requires t != nil && t.logger != nil && t.inspector != nil
+//@   refines translator.PassthroughCapable.PreparePassthrough
+//@   ensures res1 == nil ==> res0 != nil && sameSlice(res0.Body, bodyBytes) && res0.TargetPath == "/v1/messages"
+//@   ensures res1 != nil ==> res0 == nil
+
+// ---- C05: errors Olla itself produces on the Anthropic routes are Anthropic error objects with the given status
+//@ spec func anthErrType(code int) string = ite(code == 400, "invalid_request_error", ite(code == 401, "authentication_error", ite(code == 403, "permission_error", ite(code == 404, "not_found_error", ite(code == 429, "rate_limit_error", ite(code == 503, "overloaded_error", "api_error"))))))
+//@ func (t *Translator) WriteError
+//@   property C05
+//@   safety
+//@   requires t != nil && w != nil && err != nil
+//@   refines translator.ErrorWriter.WriteError
+//@   modifies ghost started, ghost status, ghost(w).hdr[all], gvar lastEncoded, ghost encW
+//@   at call Encode 1 assert strOf(errorResp["type"]) == "error" && isObj(errorResp["error"]) && strOf(blkMap(errorResp["error"])["type"]) == anthErrType(statusCode) && typeis(blkMap(errorResp["error"])["message"], "string")
+//@   ensures isObj(lastEncoded) && strOf(blkMap(lastEncoded)["type"]) == "error"
